@@ -1,11 +1,12 @@
 (* Proofs about Model/Reconnect.v.  hyper's SendRequest and the connector's poll_ready are section
    variables constrained by [stack_contract]; nothing here is an axiom.
 
-   Shape: [serve_spec] shows that one served call, started in a state satisfying the invariant
+   Shape: [serve_spec] shows that one served request, started in a state satisfying the invariant
    [Good], behaves like [spec_call], a three-state abstraction that only knows whether a usable
-   connection exists, the reachability of the endpoint and the connector's invocation count.
-   [run_steps_spec] lifts this to arbitrary histories by induction; the named theorems are then
-   proved on the abstraction by induction over the history (any length). *)
+   connection exists, what the connector would answer and its invocation count.  Histories are
+   flattened into micro steps (a batch [Calls k] is k served requests followed by one settling);
+   [run_steps_spec] lifts [serve_spec] to arbitrary histories by induction; the named theorems are
+   then proved on the abstraction by induction over the micro steps (any length, any batch size). *)
 From Coq Require Import List Arith NArith Bool Lia Sorted.
 From Verif Require Import Lib.Obs Gen.StatusTables Model.Reconnect.
 Import ListNotations.
@@ -18,35 +19,293 @@ Definition abs_state (s : cstate) : aconn :=
   match s with Connected Alive => AAlive | Connected Severed => ASevered | _ => ANone end.
 Definition abs (ch : chan) : aconn := abs_state (rc_state (ch_rc ch)).
 
+(* one served request *)
 Definition spec_call (a : aconn) (net : reach) (n : N) : aconn * N * outcome :=
   match a with
   | AAlive => (AAlive, n, Response)
-  | ASevered => (ANone, n, Canceled)
+  | ASevered => (ASevered, n, Canceled)
   | ANone =>
       match net with
       | Up => (AAlive, n + 1, Response)
-      | Down r => (ANone, n + 1, ConnectErr (mkErr (n + 1) r))
+      | Down r => (ANone, n + 1, ConnectErr (mkErr (n + 1) r Refused))
+      | UpDead => (ANone, n + 1, ConnectErr (mkErr (n + 1) 0 Handshake))
+      | UpGarbage => (ASevered, n + 1, Canceled)
       end
   end.
 
 Definition abs_drop (noticed : bool) (a : aconn) : aconn :=
   if noticed then ANone else match a with AAlive => ASevered | x => x end.
+Definition abs_settle (a : aconn) : aconn := match a with AAlive => AAlive | _ => ANone end.
+Definition ev_net (e : ev) (net : reach) : reach :=
+  match e with
+  | ConnectFails r => Down r
+  | ConnectSucceeds => Up
+  | ConnectSucceedsDead => UpDead
+  | ConnectSucceedsGarbage => UpGarbage
+  | ConnectionDropped => net
+  end.
+Definition ev_conn (e : ev) (a : aconn) : aconn :=
+  match e with ConnectionDropped => ANone | _ => a end.
 
-Fixpoint spec_steps (h : list step) (a : aconn) (net : reach) (n : N) {struct h}
-  : list call_rec * aconn * reach * N :=
+(* micro steps: a batch is k served requests and then one settling *)
+Inductive mstep := MEnv (e : ev) | MRacy (b : bool) | MCall | MSettle.
+Fixpoint flatten (h : list step) : list mstep :=
   match h with
-  | [] => ([], a, net, n)
-  | Env (ConnectFails r) :: h' => spec_steps h' a (Down r) n
-  | Env ConnectSucceeds :: h' => spec_steps h' a Up n
-  | Env ConnectionDropped :: h' => spec_steps h' ANone net n
-  | EnvRacyDrop b :: h' => spec_steps h' (abs_drop b a) net n
-  | Call :: h' =>
-      let '(a', n', o) := spec_call a net n in
-      let '(rs, a'', net'', n'') := spec_steps h' a' net n' in
-      ((n, o, n') :: rs, a'', net'', n'')
+  | [] => []
+  | Env e :: h' => MEnv e :: flatten h'
+  | EnvRacyDrop b :: h' => MRacy b :: flatten h'
+  | Calls k :: h' => repeat MCall k ++ MSettle :: flatten h'
   end.
 
-(* invariant of a channel between two steps of a history *)
+Fixpoint spec_micro (m : list mstep) (a : aconn) (net : reach) (n : N) {struct m}
+  : list call_rec * aconn * reach * N :=
+  match m with
+  | [] => ([], a, net, n)
+  | MEnv e :: m' => spec_micro m' (ev_conn e a) (ev_net e net) n
+  | MRacy b :: m' => spec_micro m' (abs_drop b a) net n
+  | MSettle :: m' => spec_micro m' (abs_settle a) net n
+  | MCall :: m' =>
+      let '(a', n', o) := spec_call a net n in
+      let '(rs, a'', net'', n'') := spec_micro m' a' net n' in
+      ((n, o, n') :: rs, a'', net'', n'')
+  end.
+Definition spec_steps (h : list step) := spec_micro (flatten h).
+
+Ltac spec_inv Hsp :=
+  cbn [spec_micro] in Hsp;
+  match type of Hsp with
+  | context [spec_call ?a ?net ?n] =>
+      let a1 := fresh "a1" in let n1 := fresh "n1" in let o := fresh "o" in let Ec := fresh "Ec" in
+      destruct (spec_call a net n) as [[a1 n1] o] eqn:Ec;
+      match type of Hsp with
+      | context [spec_micro ?m a1 ?net' n1] =>
+          let rs1 := fresh "rs1" in let a2 := fresh "a2" in let net2 := fresh "net2" in
+          let n2 := fresh "n2" in let Er := fresh "Er" in
+          destruct (spec_micro m a1 net' n1) as [[[rs1 a2] net2] n2] eqn:Er;
+          injection Hsp as <- <- <- <-
+      end
+  end.
+
+Lemma spec_call_cases : forall a net n a' n' o,
+  spec_call a net n = (a', n', o) ->
+  (o = Response /\ a' = AAlive /\ ((a = AAlive /\ n' = n) \/ (a = ANone /\ net = Up /\ n' = n + 1))) \/
+  (o = Canceled /\ a' = ASevered /\ ((a = ASevered /\ n' = n) \/ (a = ANone /\ net = UpGarbage /\ n' = n + 1))) \/
+  (exists e, o = ConnectErr e /\ e_attempt e = n' /\ a = ANone /\ a' = ANone /\ n' = n + 1 /\
+             ((net = Down (e_reason e) /\ e_kind e = Refused) \/ (net = UpDead /\ e_kind e = Handshake))).
+Proof.
+  intros a net n a' n' o H. destruct a; simpl in H.
+  - destruct net as [|r| |]; injection H as <- <- <-.
+    + left. auto 10.
+    + right. right. eexists. cbn. auto 12.
+    + right. right. eexists. cbn. auto 12.
+    + right. left. auto 10.
+  - injection H as <- <- <-. left. auto 10.
+  - injection H as <- <- <-. right. left. auto 10.
+Qed.
+
+Lemma spec_call_le : forall a net n a' n' o, spec_call a net n = (a', n', o) -> n' = n \/ n' = n + 1.
+Proof.
+  intros a net n a' n' o H.
+  destruct (spec_call_cases _ _ _ _ _ _ H) as [(_ & _ & [(_ & ->)|(_ & _ & ->)])|[(_ & _ & [(_ & ->)|(_ & _ & ->)])|(e & _ & _ & _ & _ & -> & _)]]; auto.
+Qed.
+
+(* every record: a response, a cancellation, or the failure of the attempt made by this very call *)
+Definition own_record (c : call_rec) : Prop :=
+  rec_outcome c = Response \/ rec_outcome c = Canceled \/
+  exists e, rec_outcome c = ConnectErr e /\ e_attempt e = rec_after c /\ rec_after c = rec_before c + 1.
+
+Lemma m_records : forall m a net n rs a' net' n',
+  spec_micro m a net n = (rs, a', net', n') -> Forall own_record rs.
+Proof.
+  induction m as [|s m IH]; intros a net n rs a' net' n' Hsp.
+  - injection Hsp as <- _ _ _. constructor.
+  - destruct s as [e|b| |]; try (cbn [spec_micro] in Hsp; eapply IH; eassumption).
+    spec_inv Hsp. constructor; [| eapply IH; eassumption].
+    unfold own_record, rec_outcome, rec_after, rec_before. cbn [fst snd].
+    destruct (spec_call_cases _ _ _ _ _ _ Ec) as [(-> & _)|[(-> & _)|(e & -> & E1 & _ & _ & E2 & _)]]; eauto 10.
+Qed.
+
+Lemma m_chain : forall m a net n rs a' net' n',
+  spec_micro m a net n = (rs, a', net', n') -> chained n rs n'.
+Proof.
+  induction m as [|s m IH]; intros a net n rs a' net' n' Hsp.
+  - injection Hsp as <- _ _ <-. reflexivity.
+  - destruct s as [e|b| |]; try (cbn [spec_micro] in Hsp; eapply IH; eassumption).
+    spec_inv Hsp. cbn [chained]. unfold rec_before, rec_after. cbn [fst snd].
+    split; [reflexivity|]. split; [exact (spec_call_le _ _ _ _ _ _ Ec) | eapply IH; eassumption].
+Qed.
+
+Lemma chained_le : forall rs n n', chained n rs n' -> n <= n' /\ n' <= n + N.of_nat (length rs).
+Proof.
+  induction rs as [|c rs IH]; intros n n' H; simpl in H.
+  - subst. simpl. lia.
+  - destruct H as (_ & Hc & H). apply IH in H. cbn [length]. destruct Hc as [E|E]; rewrite E in H; lia.
+Qed.
+
+Lemma m_sorted : forall m a net n rs a' net' n',
+  spec_micro m a net n = (rs, a', net', n') ->
+  Forall (fun k => n < k) (err_ids rs) /\ StronglySorted N.lt (err_ids rs).
+Proof.
+  induction m as [|s m IH]; intros a net n rs a' net' n' Hsp.
+  - injection Hsp as <- _ _ _. split; constructor.
+  - destruct s as [e|b| |]; try (cbn [spec_micro] in Hsp; eapply IH; eassumption).
+    spec_inv Hsp. destruct (IH _ _ _ _ _ _ _ Er) as [F S].
+    assert (Hle : n <= n1) by (destruct (spec_call_le _ _ _ _ _ _ Ec); lia).
+    assert (F' : Forall (fun k => n < k) (err_ids rs1)).
+    { eapply Forall_impl; [|exact F]. cbv beta. intros; lia. }
+    unfold err_ids. cbn [flat_map]. fold (err_ids rs1). unfold rec_outcome at 1. cbn [fst snd].
+    destruct (spec_call_cases _ _ _ _ _ _ Ec) as [(-> & _)|[(-> & _)|(e & -> & E1 & _ & _ & E2 & _)]]; cbn [app]; auto.
+    split.
+    + constructor; [lia | exact F'].
+    + constructor; [exact S | rewrite E1; exact F].
+Qed.
+
+Lemma m_app : forall m1 m2 a net n,
+  spec_micro (m1 ++ m2) a net n =
+    (let '(rs1, a1, net1, n1) := spec_micro m1 a net n in
+     let '(rs2, a2, net2, n2) := spec_micro m2 a1 net1 n1 in
+     (rs1 ++ rs2, a2, net2, n2)).
+Proof.
+  induction m1 as [|s m1 IH]; intros m2 a net n.
+  - simpl. destruct (spec_micro m2 a net n) as [[[? ?] ?] ?]. reflexivity.
+  - destruct s as [e|b| |]; cbn [app spec_micro]; try apply IH.
+    destruct (spec_call a net n) as [[a1 n1] o]. rewrite IH.
+    destruct (spec_micro m1 a1 net n1) as [[[rs1 a2] net2] n2].
+    destruct (spec_micro m2 a2 net2 n2) as [[[rs2 a3] net3] n3]. reflexivity.
+Qed.
+
+Fixpoint m_calls (m : list mstep) : nat :=
+  match m with [] => O | MCall :: m' => S (m_calls m') | _ :: m' => m_calls m' end.
+Fixpoint m_net (net : reach) (m : list mstep) : reach :=
+  match m with [] => net | MEnv e :: m' => m_net (ev_net e net) m' | _ :: m' => m_net net m' end.
+
+Lemma m_len_net : forall m a net n rs a' net' n',
+  spec_micro m a net n = (rs, a', net', n') -> length rs = m_calls m /\ net' = m_net net m.
+Proof.
+  induction m as [|s m IH]; intros a net n rs a' net' n' Hsp.
+  - injection Hsp as <- _ <- _. split; reflexivity.
+  - destruct s as [e|b| |]; try (cbn [spec_micro] in Hsp; eapply IH; eassumption).
+    spec_inv Hsp. destruct (IH _ _ _ _ _ _ _ Er) as [L Nn]. cbn [length m_calls m_net]. auto.
+Qed.
+
+Lemma m_calls_app : forall m1 m2, m_calls (m1 ++ m2) = (m_calls m1 + m_calls m2)%nat.
+Proof. induction m1 as [|[e|b| |] m1 IH]; intros; cbn [app m_calls]; rewrite ?IH; reflexivity. Qed.
+Lemma m_net_app : forall m1 m2 net, m_net net (m1 ++ m2) = m_net (m_net net m1) m2.
+Proof. induction m1 as [|[e|b| |] m1 IH]; intros; cbn [app m_net]; rewrite ?IH; reflexivity. Qed.
+Lemma m_calls_repeat : forall k, m_calls (repeat MCall k) = k.
+Proof. induction k; cbn [repeat m_calls]; congruence. Qed.
+Lemma m_net_repeat : forall k net, m_net net (repeat MCall k) = net.
+Proof. induction k; intros; cbn [repeat m_net]; auto. Qed.
+
+Lemma flatten_app : forall h1 h2, flatten (h1 ++ h2) = flatten h1 ++ flatten h2.
+Proof.
+  induction h1 as [|[e|b|k] h1 IH]; intros; cbn [app flatten]; rewrite ?IH; try reflexivity.
+  rewrite <- app_assoc. reflexivity.
+Qed.
+Lemma flatten_calls : forall h, m_calls (flatten h) = count_calls h.
+Proof.
+  induction h as [|[e|b|k] h IH]; cbn [flatten m_calls count_calls]; auto.
+  rewrite m_calls_app, m_calls_repeat. cbn [m_calls]. rewrite IH. reflexivity.
+Qed.
+Lemma flatten_net : forall h net, m_net net (flatten h) = net_after net h.
+Proof.
+  induction h as [|[e|b|k] h IH]; intros; cbn [flatten m_net net_after]; auto.
+  - destruct e; cbn [ev_net]; apply IH.
+  - rewrite m_net_app, m_net_repeat. cbn [m_net]. apply IH.
+Qed.
+
+(* on the property's alphabet at quiescent points no connection is ever used while dying: no
+   cancellation, every error is a connect error *)
+Definition plainq_m (s : mstep) : bool :=
+  match s with
+  | MRacy false => false
+  | MEnv ConnectSucceedsGarbage => false
+  | _ => true
+  end.
+Lemma m_plain : forall m a net n rs a' net' n',
+  spec_micro m a net n = (rs, a', net', n') ->
+  forallb plainq_m m = true -> plain_net net = true -> a <> ASevered ->
+  Forall (fun c => rec_outcome c = Response \/ exists e, rec_outcome c = ConnectErr e) rs.
+Proof.
+  induction m as [|s m IH]; intros a net n rs a' net' n' Hsp Hq Hn Ha.
+  - injection Hsp as <- _ _ _. constructor.
+  - cbn [forallb] in Hq. apply andb_true_iff in Hq as [Hq1 Hq2].
+    destruct s as [e|b| |].
+    + cbn [spec_micro] in Hsp. eapply IH; try eassumption.
+      * destruct e; try discriminate; auto.
+      * destruct e; cbn; auto; discriminate.
+    + cbn [spec_micro] in Hsp. destruct b; [|discriminate]. eapply IH; try eassumption. discriminate.
+    + spec_inv Hsp.
+      destruct (spec_call_cases _ _ _ _ _ _ Ec)
+        as [(-> & -> & _)|[(_ & _ & [(-> & _)|(_ & -> & _)])|(e & -> & _ & _ & -> & _)]];
+        try congruence; try discriminate.
+      * constructor; [left; reflexivity|]. eapply IH; try eassumption. discriminate.
+      * constructor; [right; eexists; reflexivity|]. eapply IH; try eassumption. discriminate.
+    + cbn [spec_micro] in Hsp. eapply IH; try eassumption. destruct a; discriminate.
+Qed.
+
+Lemma plain_flatten : forall h, quiescent h = true -> plain h = true -> forallb plainq_m (flatten h) = true.
+Proof.
+  induction h as [|[e|b|k] h IH]; intros Hq Hp; auto;
+    unfold quiescent, plain in *; cbn [forallb flatten] in *;
+    apply andb_true_iff in Hq as [Hq1 Hq2]; apply andb_true_iff in Hp as [Hp1 Hp2].
+  - rewrite (IH Hq2 Hp2), andb_true_r. destruct e; auto.
+  - rewrite (IH Hq2 Hp2), andb_true_r. destruct b; auto.
+  - rewrite forallb_app. cbn [forallb]. rewrite (IH Hq2 Hp2).
+    assert (forallb plainq_m (repeat MCall k) = true) as -> by (induction k; auto). reflexivity.
+Qed.
+
+(* at the quiescent points between the steps of a history no dying connection is left over *)
+Lemma steps_no_severed : forall h a net n rs a' net' n',
+  spec_steps h a net n = (rs, a', net', n') -> quiescent h = true -> a <> ASevered -> a' <> ASevered.
+Proof.
+  unfold spec_steps.
+  induction h as [|[e|b|k] h IH]; intros a net n rs a' net' n' Hsp Hq Ha;
+    unfold quiescent in *; cbn [forallb flatten] in *.
+  - injection Hsp as _ <- _ _. exact Ha.
+  - apply andb_true_iff in Hq as [_ Hq]. cbn [spec_micro] in Hsp. eapply IH; try eassumption.
+    destruct e; cbn; auto; discriminate.
+  - apply andb_true_iff in Hq as [Hb Hq]. cbn [spec_micro] in Hsp. eapply IH; try eassumption.
+    destruct b; [|discriminate]. discriminate.
+  - apply andb_true_iff in Hq as [_ Hq]. rewrite m_app in Hsp.
+    destruct (spec_micro (repeat MCall k) a net n) as [[[rs1 a1] net1] n1].
+    cbn [spec_micro] in Hsp.
+    destruct (spec_micro (flatten h) (abs_settle a1) net1 n1) as [[[rs2 a2] net2] n2] eqn:E2.
+    injection Hsp as _ <- _ _. eapply IH; try eassumption. destruct a1; discriminate.
+Qed.
+
+(* the record of a single call issued after [h1] *)
+Lemma spec_nth_call : forall h1 h2 a net n rs a' net' n',
+  spec_steps (h1 ++ Call :: h2) a net n = (rs, a', net', n') ->
+  exists rs1 a1 n1,
+    spec_steps h1 a net n = (rs1, a1, net_after net h1, n1) /\
+    nth_error rs (count_calls h1) =
+      Some (n1, snd (spec_call a1 (net_after net h1) n1), snd (fst (spec_call a1 (net_after net h1) n1))) /\
+    spec_steps h2 (abs_settle (fst (fst (spec_call a1 (net_after net h1) n1)))) (net_after net h1)
+               (snd (fst (spec_call a1 (net_after net h1) n1))) =
+      (skipn (S (count_calls h1)) rs, a', net', n').
+Proof.
+  unfold spec_steps. intros h1 h2 a net n rs a' net' n' Hsp.
+  rewrite flatten_app, m_app in Hsp.
+  destruct (spec_micro (flatten h1) a net n) as [[[rs1 a1] net1] n1] eqn:E1.
+  destruct (m_len_net _ _ _ _ _ _ _ _ E1) as [L ->]. rewrite flatten_calls in L. rewrite flatten_net in *.
+  cbn [flatten repeat app spec_micro] in Hsp.
+  destruct (spec_call a1 (net_after net h1) n1) as [[a2 n2] o] eqn:Ec.
+  destruct (spec_micro (flatten h2) (abs_settle a2) (net_after net h1) n2) as [[[rs2 a3] net3] n3] eqn:E2.
+  injection Hsp as <- <- <- <-.
+  exists rs1, a1, n1. rewrite Ec. cbn [fst snd]. split; [reflexivity|]. rewrite <- L. split.
+  - rewrite nth_error_app2 by lia. rewrite Nat.sub_diag. reflexivity.
+  - replace (S (length rs1)) with (length (rs1 ++ [(n1, o, n2)])) by (rewrite app_length; simpl; lia).
+    change (rs1 ++ (n1, o, n2) :: rs2) with (rs1 ++ [(n1, o, n2)] ++ rs2). rewrite app_assoc.
+    rewrite skipn_app, Nat.sub_diag, skipn_all. cbn [app skipn]. exact E2.
+Qed.
+
+Lemma nth_error_skipn0 : forall (A : Type) k (l : list A), nth_error l k = nth_error (skipn k l) 0.
+Proof.
+  induction k as [|k IH]; intros [|c l]; cbn [skipn nth_error]; try reflexivity. apply IH.
+Qed.
+
+(* invariant of a channel between two served requests *)
 Definition quiet (s : cstate) : Prop := match s with Connecting _ => False | _ => True end.
 Record Good (ch : chan) : Prop := {
   g_failed : ch_failed ch = None;
@@ -64,20 +323,30 @@ Section Contracts.
   Let pr_loop' := pr_loop cpr mkpr.
   Let poll_ready' := poll_ready cpr mkpr.
   Let serve' := serve cpr sreq mkpr.
+  Let serve_batch' := serve_batch cpr sreq mkpr.
   Let ready_oneshot' := ready_oneshot cpr mkpr.
   Let run_steps' := run_steps cpr sreq mkpr.
   Let build' := build cpr mkpr.
   Let run_with' := run_with cpr sreq mkpr.
 
   (* ------------------------------------------------------------ one poll_ready *)
-  Definition connect_answer (w : world) : result unit cerr :=
-    match w_net w with Up => Ok tt | Down r => Err (mkErr (w_attempts w + 1) r) end.
+  Definition connect_answer (w : world) : result conn cerr :=
+    match w_net w with
+    | Up => Ok Alive
+    | Down r => Err (mkErr (w_attempts w + 1) r Refused)
+    | UpDead => Err (mkErr (w_attempts w + 1) 0 Handshake)
+    | UpGarbage => Ok Severed
+    end.
   Definition bump (w : world) : world := mkWorld (w_net w) (w_lat w) (w_attempts w + 1).
+  (* a connect future never hands over a connection that hyper already reports closed *)
+  Definition usable (r : result conn cerr) : Prop := forall c, r = Ok c -> c <> Closed.
+  Lemma connect_answer_usable : forall w, usable (connect_answer w).
+  Proof. intros w c. unfold connect_answer. destruct (w_net w); intro H; inversion H; discriminate. Qed.
 
   (* what the Connecting arm does once the future is ready *)
-  Definition after_connect (rc : reconnect) (r : result unit cerr) : reconnect * pr :=
+  Definition after_connect (rc : reconnect) (r : result conn cerr) : reconnect * pr :=
     match r with
-    | Ok _ => (set_hbc (set_state rc (Connected Alive)) true, PrReadyOk)
+    | Ok c => (set_hbc (set_state rc (Connected c)) true, PrReadyOk)
     | Err e =>
         if negb (rc_hbc rc || rc_lazy rc)
         then (set_state rc (Connecting FutDone), PrReadyErr e)
@@ -85,18 +354,21 @@ Section Contracts.
     end.
 
   Lemma loop_connecting : forall lf rc w d r,
-    rc_state rc = Connecting (Fut d r) -> (2 <= lf)%nat ->
+    rc_state rc = Connecting (Fut d r) -> usable r -> (2 <= lf)%nat ->
     pr_loop' lf rc w =
       match d with
       | S d' => (set_state rc (Connecting (Fut d' r)), w, PrPending)
       | O => let '(rc', p) := after_connect rc r in (rc', w, p)
       end.
   Proof.
-    intros lf rc w d r Hs Hlf. destruct lf as [|[|lf]]; try lia.
+    intros lf rc w d r Hs Hu Hlf. destruct lf as [|[|lf]]; try lia.
     destruct rc as [st er hbc lz gh]; simpl in Hs; subst st.
     unfold pr_loop'. destruct d as [|d'].
-    - destruct r as [[]|e]; simpl.
-      + rewrite (sc_ready_alive _ _ _ HC). reflexivity.
+    - destruct r as [c|e]; simpl.
+      + destruct c.
+        * rewrite (sc_ready_alive _ _ _ HC). reflexivity.
+        * rewrite (sc_ready_severed _ _ _ HC). reflexivity.
+        * exfalso. exact (Hu Closed eq_refl eq_refl).
       + destruct (negb (hbc || lz)); reflexivity.
     - reflexivity.
   Qed.
@@ -115,7 +387,8 @@ Section Contracts.
     unfold pr_loop'. cbn [pr_loop]. rewrite Hs.
     rewrite (sc_mk_ready _ _ _ HC) at 1. cbn [make_service].
     fold pr_loop'.
-    rewrite (loop_connecting lf _ (bump w) (w_lat w) (connect_answer w)); [| destruct rc; reflexivity | lia].
+    rewrite (loop_connecting lf _ (bump w) (w_lat w) (connect_answer w));
+      [| destruct rc; reflexivity | apply connect_answer_usable | lia].
     destruct rc as [st er hbc lz gh]; simpl in Hs; subst st.
     destruct (w_lat w); reflexivity.
   Qed.
@@ -142,17 +415,19 @@ Section Contracts.
   Lemma poll_ready_no_error : forall lf rc w, rc_error rc = None -> poll_ready' lf rc w = pr_loop' lf rc w.
   Proof. intros lf rc w H. unfold poll_ready', poll_ready. rewrite H. reflexivity. Qed.
 
-  (* ------------------------------------------------------------ one served call *)
+  (* ------------------------------------------------------------ one served request *)
+  Definition finish_ready (rc1 : reconnect) (w' : world) : chan * world * outcome :=
+    match call rc1 with
+    | (rc', CoErr e) => (mkChan rc' None, w', ConnectErr e)
+    | (rc', CoSent c) => (mkChan rc' None, w', sent_outcome sreq c)
+    | (rc', CoPanic) => (mkChan rc' None, w', Panic)
+    end.
+
   Lemma serve_S : forall f rc w,
     serve' (S f) (mkChan rc None) w =
       match poll_ready' (S f) rc w with
       | (rc1, w', PrPending) => serve' f (mkChan rc1 None) w'
-      | (rc1, w', PrReadyOk) =>
-          match call rc1 with
-          | (rc', CoErr e) => (mkChan rc' None, w', ConnectErr e)
-          | (rc', CoSent c) => (mkChan (after_send rc') None, w', sent_outcome sreq c)
-          | (rc', CoPanic) => (mkChan rc' None, w', Panic)
-          end
+      | (rc1, w', PrReadyOk) => finish_ready rc1 w'
       | (rc1, w', PrReadyErr e) => (mkChan rc1 (Some e), w', ServiceFailed e)
       | (rc1, w', PrPanic) => (mkChan rc1 None, w', Panic)
       | (rc1, w', PrSpin) => (mkChan rc1 None, w', OutOfFuel)
@@ -161,9 +436,9 @@ Section Contracts.
 
   (* result of serving once the connect future has answered, for a channel in lazy mode or that
      has been connected before *)
-  Definition served_after_connect (rc : reconnect) (r : result unit cerr) : chan * outcome :=
+  Definition served_after_connect (rc : reconnect) (r : result conn cerr) : chan * outcome :=
     match r with
-    | Ok _ => (mkChan (set_hbc (set_state rc (Connected Alive)) true) None, Response)
+    | Ok c => (mkChan (set_hbc (set_state rc (Connected c)) true) None, sent_outcome sreq c)
     | Err e => (mkChan (set_state rc Idle) None, ConnectErr e)
     end.
 
@@ -171,38 +446,35 @@ Section Contracts.
     rc_state rc = Connecting (Fut O r) -> rc_error rc = None -> rc_hbc rc || rc_lazy rc = true ->
     (let '(rc1, p) := after_connect rc r in
      match p return chan * world * outcome with
-     | PrReadyOk =>
-         match call rc1 with
-         | (rc', CoErr e) => (mkChan rc' None, w, ConnectErr e)
-         | (rc', CoSent c) => (mkChan (after_send rc') None, w, sent_outcome sreq c)
-         | (rc', CoPanic) => (mkChan rc' None, w, Panic)
-         end
+     | PrReadyOk => finish_ready rc1 w
      | _ => (mkChan rc1 None, w, Panic)
      end) = (let '(ch, o) := served_after_connect rc r in (ch, w, o)).
   Proof.
     intros rc w r Hs He Hm. destruct rc as [st er hbc lz gh]; simpl in *; subst.
-    destruct r as [[]|e]; simpl.
-    - unfold sent_outcome. rewrite (sc_send_alive _ _ _ HC). reflexivity.
+    destruct r as [c|e]; simpl.
+    - reflexivity.
     - rewrite Hm. reflexivity.
   Qed.
 
+  Lemma after_connect_ready : forall rc r,
+    rc_hbc rc || rc_lazy rc = true -> snd (after_connect rc r) = PrReadyOk.
+  Proof. intros rc [c|e] Hm; simpl; [reflexivity|]. rewrite Hm. reflexivity. Qed.
+
   Lemma serve_connecting : forall d f rc w r,
-    rc_state rc = Connecting (Fut d r) -> rc_error rc = None -> rc_hbc rc || rc_lazy rc = true ->
-    (d + 2 <= f)%nat ->
+    rc_state rc = Connecting (Fut d r) -> usable r -> rc_error rc = None ->
+    rc_hbc rc || rc_lazy rc = true -> (d + 2 <= f)%nat ->
     serve' f (mkChan rc None) w =
       (let '(ch, o) := served_after_connect (set_state rc (Connecting (Fut O r))) r in (ch, w, o)).
   Proof.
-    induction d as [|d IH]; intros f rc w r Hs He Hm Hf.
+    induction d as [|d IH]; intros f rc w r Hs Hu He Hm Hf.
     - destruct f as [|f]; try lia. rewrite serve_S, poll_ready_no_error by assumption.
-      rewrite (loop_connecting (S f) rc w O r Hs) by lia.
+      rewrite (loop_connecting (S f) rc w O r Hs Hu) by lia.
       pose proof (serve_ready_connecting rc w r Hs He Hm) as E.
-      destruct (after_connect rc r) as [rc1 p] eqn:Ea.
-      assert (p = PrReadyOk) as ->.
-      { unfold after_connect in Ea. destruct r as [[]|e]; [inversion Ea; reflexivity|].
-        rewrite Hm in Ea. simpl in Ea. inversion Ea; reflexivity. }
+      pose proof (after_connect_ready rc r Hm) as Hp.
+      destruct (after_connect rc r) as [rc1 p]. simpl in Hp. subst p.
       rewrite E. destruct rc as [st er hbc lz gh]; simpl in *; subst. reflexivity.
     - destruct f as [|f]; try lia. rewrite serve_S, poll_ready_no_error by assumption.
-      rewrite (loop_connecting (S f) rc w (S d) r Hs) by lia.
+      rewrite (loop_connecting (S f) rc w (S d) r Hs Hu) by lia.
       rewrite (IH f (set_state rc (Connecting (Fut d r))) w r); try lia;
         destruct rc as [st er hbc lz gh]; simpl in *; subst; auto.
   Qed.
@@ -221,18 +493,38 @@ Section Contracts.
     rewrite (loop_idle (S f) rc w Hs) by lia. cbv zeta.
     destruct (w_lat w) as [|d] eqn:Hl.
     - set (rc0 := set_state (note_i2c rc) (Connecting (Fut O (connect_answer w)))).
+      assert (Hm0 : rc_hbc rc0 || rc_lazy rc0 = true) by (destruct rc; exact Hm).
       pose proof (serve_ready_connecting rc0 (bump w) (connect_answer w)) as E.
-      destruct (after_connect rc0 (connect_answer w)) as [rc1 p] eqn:Ea.
-      assert (p = PrReadyOk) as ->.
-      { unfold after_connect in Ea. destruct (connect_answer w) as [[]|e]; [inversion Ea; reflexivity|].
-        assert (rc_hbc rc0 || rc_lazy rc0 = true) as Hm0 by (destruct rc; exact Hm).
-        rewrite Hm0 in Ea. simpl in Ea. inversion Ea; reflexivity. }
+      pose proof (after_connect_ready rc0 (connect_answer w) Hm0) as Hp.
+      destruct (after_connect rc0 (connect_answer w)) as [rc1 p]. simpl in Hp. subst p.
       rewrite E; destruct rc; simpl in *; auto.
     - rewrite (serve_connecting d f _ (bump w) (connect_answer w)); try lia;
+        try apply connect_answer_usable;
         destruct rc as [st er hbc lz gh]; simpl in *; subst; auto.
   Qed.
 
   Definition world_with (w : world) (n : N) : world := mkWorld (w_net w) (w_lat w) n.
+
+  Lemma serve_idle_spec : forall f rc w,
+    rc_state rc = Idle -> rc_error rc = None -> rc_hbc rc || rc_lazy rc = true ->
+    (w_lat w + 3 <= f)%nat ->
+    exists ch',
+      serve' f (mkChan rc None) w =
+        (ch', world_with w (snd (fst (spec_call ANone (w_net w) (w_attempts w)))),
+         snd (spec_call ANone (w_net w) (w_attempts w))) /\
+      Good ch' /\
+      abs ch' = fst (fst (spec_call ANone (w_net w) (w_attempts w))) /\
+      rc_i2c (ch_rc ch') + w_attempts w =
+        rc_i2c rc + snd (fst (spec_call ANone (w_net w) (w_attempts w))).
+  Proof.
+    intros f rc w Hs He Hm Hf. rewrite (serve_idle f rc w Hs He Hm Hf).
+    unfold connect_answer. cbn [spec_call].
+    destruct w as [net lat n]. cbn [w_net w_attempts w_lat bump world_with].
+    destruct rc as [st er hbc lz gh]; simpl in *; subst.
+    destruct net as [|r| |]; cbn; unfold sent_outcome;
+      rewrite ?(sc_send_alive _ _ _ HC), ?(sc_send_severed _ _ _ HC);
+      (eexists; split; [reflexivity|]; split; [constructor; simpl; auto|]; split; [reflexivity|]; simpl; lia).
+  Qed.
 
   Lemma serve_spec : forall f ch w,
     Good ch -> (w_lat w + 4 <= f)%nat ->
@@ -248,57 +540,44 @@ Section Contracts.
     unfold abs. cbn [ch_rc].
     destruct (rc_state rc) as [|fut|c] eqn:Hs; [| contradiction |].
     - (* Idle *)
-      rewrite (serve_idle f rc w Hs He Hm) by lia.
-      unfold connect_answer. cbn [abs_state spec_call].
-      destruct w as [net lat n]. cbn [w_net w_attempts w_lat bump world_with].
-      destruct rc as [st er hbc lz gh]; simpl in *; subst.
-      destruct net as [|r]; cbn.
-      + eexists; split; [reflexivity|]. split; [constructor; simpl; auto|]. split; [reflexivity|]. simpl. lia.
-      + eexists; split; [reflexivity|]. split; [constructor; simpl; auto|]. split; [reflexivity|]. simpl. lia.
+      cbn [abs_state]. apply serve_idle_spec; auto. lia.
     - destruct c.
       + (* Alive *)
         destruct f as [|f]; try lia. rewrite serve_S, poll_ready_no_error by assumption.
         rewrite (loop_usable (S f) rc w Alive Hs) by (congruence || lia).
-        destruct rc as [st er hbc lz gh]; simpl in *; subst. cbn.
+        destruct rc as [st er hbc lz gh]; simpl in *; subst. unfold finish_ready. cbn.
         unfold sent_outcome. rewrite (sc_send_alive _ _ _ HC).
         destruct w as [net lat n]. cbn.
         eexists; split; [reflexivity|]. split; [constructor; simpl; auto|]. split; [reflexivity|]. simpl. lia.
-      + (* Severed *)
+      + (* Severed: the request is sent and cancelled; within a batch the connection still looks usable *)
         destruct f as [|f]; try lia. rewrite serve_S, poll_ready_no_error by assumption.
         rewrite (loop_usable (S f) rc w Severed Hs) by (congruence || lia).
-        destruct rc as [st er hbc lz gh]; simpl in *; subst. cbn.
+        destruct rc as [st er hbc lz gh]; simpl in *; subst. unfold finish_ready. cbn.
         unfold sent_outcome. rewrite (sc_send_severed _ _ _ HC).
         destruct w as [net lat n]. cbn.
         eexists; split; [reflexivity|]. split; [constructor; simpl; auto|]. split; [reflexivity|]. simpl. lia.
       + (* Closed: poll_ready falls through to Idle inside the same loop *)
         destruct f as [|f]; try lia. rewrite serve_S, poll_ready_no_error by assumption.
         rewrite (loop_closed (S f) rc w Hs) by lia. cbn [pred].
-        (* the same poll as a fresh Idle one *)
-        assert (Hidle : serve' (S f) (mkChan (set_state (set_hbc rc true) Idle) None) w =
-                        match pr_loop' (S f) (set_state (set_hbc rc true) Idle) w with
+        set (rcI := set_state (set_hbc rc true) Idle).
+        assert (HsI : rc_state rcI = Idle) by (destruct rc; reflexivity).
+        assert (HeI : rc_error rcI = None) by (destruct rc; assumption).
+        assert (HmI : rc_hbc rcI || rc_lazy rcI = true) by (destruct rc; reflexivity).
+        assert (Hidle : serve' (S f) (mkChan rcI None) w =
+                        match pr_loop' (S f) rcI w with
                         | (rc1, w', PrPending) => serve' f (mkChan rc1 None) w'
-                        | (rc1, w', PrReadyOk) =>
-                            match call rc1 with
-                            | (rc', CoErr e) => (mkChan rc' None, w', ConnectErr e)
-                            | (rc', CoSent c) => (mkChan (after_send rc') None, w', sent_outcome sreq c)
-                            | (rc', CoPanic) => (mkChan rc' None, w', Panic)
-                            end
+                        | (rc1, w', PrReadyOk) => finish_ready rc1 w'
                         | (rc1, w', PrReadyErr e) => (mkChan rc1 (Some e), w', ServiceFailed e)
                         | (rc1, w', PrPanic) => (mkChan rc1 None, w', Panic)
                         | (rc1, w', PrSpin) => (mkChan rc1 None, w', OutOfFuel)
                         end).
-        { rewrite serve_S, poll_ready_no_error by (destruct rc; assumption). reflexivity. }
-        assert (Hsame : pr_loop' f (set_state (set_hbc rc true) Idle) w =
-                        pr_loop' (S f) (set_state (set_hbc rc true) Idle) w).
-        { rewrite !loop_idle by (try lia; destruct rc; reflexivity). reflexivity. }
-        rewrite Hsame, <- Hidle.
-        rewrite (serve_idle (S f) _ w) by (try lia; destruct rc; simpl in *; auto).
-        unfold connect_answer. cbn [abs_state spec_call].
-        destruct w as [net lat n]. cbn [w_net w_attempts w_lat bump world_with].
-        destruct rc as [st er hbc lz gh]; simpl in *; subst.
-        destruct net as [|r]; cbn.
-        * eexists; split; [reflexivity|]. split; [constructor; simpl; auto|]. split; [reflexivity|]. simpl. lia.
-        * eexists; split; [reflexivity|]. split; [constructor; simpl; auto|]. split; [reflexivity|]. simpl. lia.
+        { rewrite serve_S, poll_ready_no_error by assumption. reflexivity. }
+        assert (Hsame : pr_loop' f rcI w = pr_loop' (S f) rcI w).
+        { rewrite !loop_idle by (try lia; assumption). reflexivity. }
+        rewrite Hsame, <- Hidle. cbn [abs_state].
+        destruct (serve_idle_spec (S f) rcI w HsI HeI HmI) as (ch' & E & G & A & I); [lia|].
+        exists ch'. split; [exact E|]. split; [exact G|]. split; [exact A|].
+        replace (rc_i2c rc) with (rc_i2c rcI) by (destruct rc; reflexivity). exact I.
   Qed.
 
   (* ------------------------------------------------------------ histories *)
@@ -317,6 +596,45 @@ Section Contracts.
     intros tc [[st er hbc lz gh] fl]. unfold drop_conn. simpl.
     destruct st as [|fut|[]]; reflexivity.
   Qed.
+  Lemma good_settle : forall ch, Good ch -> Good (settle ch).
+  Proof.
+    intros [[st er hbc lz gh] fl] [Hf He Hm Hq]. unfold settle, settle_rc. simpl in *.
+    destruct st as [|fut|[]]; simpl; constructor; simpl; auto.
+  Qed.
+  Lemma abs_settle_ch : forall ch, abs (settle ch) = abs_settle (abs ch).
+  Proof.
+    intros [[st er hbc lz gh] fl]. unfold settle, settle_rc, abs. simpl.
+    destruct st as [|fut|[]]; reflexivity.
+  Qed.
+  Lemma i2c_settle : forall ch, rc_i2c (ch_rc (settle ch)) = rc_i2c (ch_rc ch).
+  Proof.
+    intros [[st er hbc lz gh] fl]. unfold settle, settle_rc. simpl.
+    destruct st as [|fut|[]]; reflexivity.
+  Qed.
+
+  (* the k queued requests of a batch *)
+  Lemma serve_batch_spec : forall k f ch w rs a' net' n',
+    Good ch -> (w_lat w + 4 <= f)%nat ->
+    spec_micro (repeat MCall k) (abs ch) (w_net w) (w_attempts w) = (rs, a', net', n') ->
+    exists ch',
+      serve_batch' f k ch w = (rs, ch', mkWorld net' (w_lat w) n') /\ Good ch' /\ abs ch' = a' /\
+      rc_i2c (ch_rc ch') + w_attempts w = rc_i2c (ch_rc ch) + n'.
+  Proof.
+    induction k as [|k IH]; intros f ch w rs a' net' n' HG Hf Hsp.
+    - simpl in Hsp. inversion Hsp; subst. exists ch. destruct w as [net lat n]. cbn.
+      split; [reflexivity|]. split; [assumption|]. split; reflexivity.
+    - cbn [repeat spec_micro] in Hsp.
+      destruct (serve_spec f ch w HG Hf) as (ch1 & Es & G1 & A1 & I1).
+      destruct (spec_call (abs ch) (w_net w) (w_attempts w)) as [[a1 n1] o] eqn:Ec.
+      cbn [fst snd] in Es, A1, I1.
+      destruct (spec_micro (repeat MCall k) a1 (w_net w) n1) as [[[rs1 a2] net2] n2] eqn:Er.
+      injection Hsp as Hrs Ha Hnet Hn. subst rs a' net' n'.
+      destruct (IH f ch1 (world_with w n1) rs1 a2 net2 n2 G1 Hf) as (ch' & E & G & A & I).
+      { rewrite A1. exact Er. }
+      exists ch'. unfold serve_batch' in *. cbn [serve_batch]. fold serve'. rewrite Es. rewrite E.
+      cbn [world_with w_lat w_attempts] in *.
+      split; [reflexivity|]. split; [exact G|]. split; [exact A|]. lia.
+  Qed.
 
   Lemma run_steps_spec : forall h f ch w rs a' net' n',
     Good ch -> (w_lat w + 4 <= f)%nat ->
@@ -325,36 +643,43 @@ Section Contracts.
       run_steps' f h ch w = (rs, ch', mkWorld net' (w_lat w) n') /\ Good ch' /\ abs ch' = a' /\
       rc_i2c (ch_rc ch') + w_attempts w = rc_i2c (ch_rc ch) + n'.
   Proof.
+    unfold spec_steps.
     induction h as [|s h IH]; intros f ch w rs a' net' n' HG Hf Hsp.
     - simpl in Hsp. inversion Hsp; subst. exists ch. destruct w as [net lat n]. cbn.
       split; [reflexivity|]. split; [assumption|]. split; reflexivity.
-    - destruct s as [[r| |]|b|].
-      + (* ConnectFails *)
-        simpl in Hsp. destruct (IH f ch (set_net w (Down r)) rs a' net' n' HG Hf Hsp) as (ch' & E & G & A & I).
-        exists ch'. split; [exact E|]. split; [exact G|]. split; [exact A| exact I].
-      + simpl in Hsp. destruct (IH f ch (set_net w Up) rs a' net' n' HG Hf Hsp) as (ch' & E & G & A & I).
-        exists ch'. split; [exact E|]. split; [exact G|]. split; [exact A| exact I].
-      + simpl in Hsp.
-        pose proof (abs_drop_conn true ch) as Ha. cbn [abs_drop] in Ha.
-        destruct (IH f (drop_conn Closed ch) w rs a' net' n' (good_drop _ _ HG) Hf) as (ch' & E & G & A & I).
-        { rewrite Ha. exact Hsp. }
-        rewrite i2c_drop in I. exists ch'. split; [exact E|]. split; [exact G|]. split; [exact A| exact I].
-      + simpl in Hsp.
+    - destruct s as [e|b|k].
+      + (* environment event *)
+        cbn [flatten spec_micro] in Hsp.
+        destruct e as [r| | | |]; cbn [ev_conn ev_net] in Hsp.
+        * destruct (IH f ch (set_net w (Down r)) rs a' net' n' HG Hf Hsp) as (ch' & E & G & A & I).
+          exists ch'. split; [exact E|]. split; [exact G|]. split; [exact A| exact I].
+        * destruct (IH f ch (set_net w Up) rs a' net' n' HG Hf Hsp) as (ch' & E & G & A & I).
+          exists ch'. split; [exact E|]. split; [exact G|]. split; [exact A| exact I].
+        * destruct (IH f ch (set_net w UpDead) rs a' net' n' HG Hf Hsp) as (ch' & E & G & A & I).
+          exists ch'. split; [exact E|]. split; [exact G|]. split; [exact A| exact I].
+        * destruct (IH f ch (set_net w UpGarbage) rs a' net' n' HG Hf Hsp) as (ch' & E & G & A & I).
+          exists ch'. split; [exact E|]. split; [exact G|]. split; [exact A| exact I].
+        * pose proof (abs_drop_conn true ch) as Ha. cbn [abs_drop] in Ha.
+          destruct (IH f (drop_conn Closed ch) w rs a' net' n' (good_drop _ _ HG) Hf) as (ch' & E & G & A & I).
+          { rewrite Ha. exact Hsp. }
+          rewrite i2c_drop in I. exists ch'. split; [exact E|]. split; [exact G|]. split; [exact A| exact I].
+      + cbn [flatten spec_micro] in Hsp.
         destruct (IH f (drop_conn (if b then Closed else Severed) ch) w rs a' net' n' (good_drop _ _ HG) Hf)
           as (ch' & E & G & A & I).
         { rewrite abs_drop_conn. exact Hsp. }
         rewrite i2c_drop in I. exists ch'. split; [exact E|]. split; [exact G|]. split; [exact A| exact I].
-      + (* Call *)
-        simpl in Hsp.
-        destruct (serve_spec f ch w HG Hf) as (ch1 & Es & G1 & A1 & I1).
-        destruct (spec_call (abs ch) (w_net w) (w_attempts w)) as [[a1 n1] o] eqn:Ec.
-        cbn [fst snd] in Es, A1, I1.
-        destruct (spec_steps h a1 (w_net w) n1) as [[[rs1 a2] net2] n2] eqn:Er.
-        injection Hsp as Hrs Ha Hnet Hn. subst rs a' net' n'.
-        destruct (IH f ch1 (world_with w n1) rs1 a2 net2 n2 G1 Hf) as (ch' & E & G & A & I).
-        { rewrite A1. exact Er. }
-        exists ch'. unfold run_steps' in *. cbn [run_steps]. fold serve'. rewrite Es. rewrite E.
-        cbn [world_with w_lat w_attempts] in *.
+      + (* a batch of k calls, then the quiescent point *)
+        cbn [flatten] in Hsp. rewrite m_app in Hsp.
+        destruct (spec_micro (repeat MCall k) (abs ch) (w_net w) (w_attempts w)) as [[[rs1 a1] net1] n1] eqn:E1.
+        cbn [spec_micro] in Hsp.
+        destruct (spec_micro (flatten h) (abs_settle a1) net1 n1) as [[[rs2 a2] net2] n2] eqn:E2.
+        injection Hsp as <- <- <- <-.
+        destruct (serve_batch_spec k f ch w rs1 a1 net1 n1 HG Hf E1) as (ch1 & Eb & G1 & A1 & I1).
+        destruct (IH f (settle ch1) (mkWorld net1 (w_lat w) n1) rs2 a2 net2 n2 (good_settle _ G1) Hf)
+          as (ch' & E & G & A & I).
+        { rewrite abs_settle_ch, A1. exact E2. }
+        exists ch'. unfold run_steps' in *. cbn [run_steps]. fold serve_batch'. rewrite Eb, E.
+        cbn [w_lat w_attempts] in *. rewrite i2c_settle in I.
         split; [reflexivity|]. split; [exact G|]. split; [exact A|]. lia.
   Qed.
 
@@ -371,21 +696,21 @@ Section Contracts.
   Proof. intros. unfold ready_oneshot', poll_ready'. cbn [ready_oneshot]. destruct (poll_ready cpr mkpr (S f) rc w) as [[rc' w'] []]; reflexivity. Qed.
 
   Lemma after_connect_not_pending : forall rc r, snd (after_connect rc r) <> PrPending.
-  Proof. intros rc [[]|e]; simpl; try discriminate. destruct (negb _); discriminate. Qed.
+  Proof. intros rc [c|e]; simpl; try discriminate. destruct (negb _); discriminate. Qed.
 
   Lemma ready_oneshot_connecting : forall d f rc w r,
-    rc_state rc = Connecting (Fut d r) -> rc_error rc = None -> (d + 2 <= f)%nat ->
+    rc_state rc = Connecting (Fut d r) -> usable r -> rc_error rc = None -> (d + 2 <= f)%nat ->
     ready_oneshot' f rc w =
       (let '(rc', p) := after_connect (set_state rc (Connecting (Fut O r))) r in (rc', w, ro_of p)).
   Proof.
-    induction d as [|d IH]; intros f rc w r Hs He Hf.
+    induction d as [|d IH]; intros f rc w r Hs Hu He Hf.
     - destruct f as [|f]; try lia. rewrite ready_oneshot_S, poll_ready_no_error by assumption.
-      rewrite (loop_connecting (S f) rc w O r Hs) by lia.
+      rewrite (loop_connecting (S f) rc w O r Hs Hu) by lia.
       assert (set_state rc (Connecting (Fut O r)) = rc) as -> by (destruct rc; simpl in *; subst; reflexivity).
       pose proof (after_connect_not_pending rc r) as Hp.
       destruct (after_connect rc r) as [rc' p]. destruct p; try reflexivity. simpl in Hp. congruence.
     - destruct f as [|f]; try lia. rewrite ready_oneshot_S, poll_ready_no_error by assumption.
-      rewrite (loop_connecting (S f) rc w (S d) r Hs) by lia.
+      rewrite (loop_connecting (S f) rc w (S d) r Hs Hu) by lia.
       rewrite (IH f (set_state rc (Connecting (Fut d r))) w r); try lia;
         destruct rc as [st er hbc lz gh]; simpl in *; subst; auto.
   Qed.
@@ -395,26 +720,31 @@ Section Contracts.
     build' false f w =
       match w_net w with
       | Up => (Some (mkChan (mkRc (Connected Alive) None true false 1) None), bump w, Some RoOk)
-      | Down r => (None, bump w, Some (RoErr (mkErr (w_attempts w + 1) r)))
+      | Down r => (None, bump w, Some (RoErr (mkErr (w_attempts w + 1) r Refused)))
+      | UpDead => (None, bump w, Some (RoErr (mkErr (w_attempts w + 1) 0 Handshake)))
+      | UpGarbage => (Some (mkChan (mkRc (Connected Closed) None true false 1) None), bump w, Some RoOk)
       end.
   Proof.
     intros f w Hf. unfold build', build. fold ready_oneshot'.
     destruct f as [|f]; try lia. rewrite ready_oneshot_S, poll_ready_no_error by reflexivity.
     rewrite (loop_idle (S f) (new_reconnect false) w) by (reflexivity || lia). cbv zeta.
-    unfold connect_answer.
+    pose proof (connect_answer_usable w) as Hu. unfold connect_answer in *.
     destruct (w_lat w) as [|d] eqn:Hl.
     - destruct (w_net w); reflexivity.
-    - erewrite (ready_oneshot_connecting d f); [| reflexivity | reflexivity | lia].
+    - erewrite (ready_oneshot_connecting d f); [| reflexivity | exact Hu | reflexivity | lia].
       destruct (w_net w); reflexivity.
   Qed.
 
   (* ------------------------------------------------------------ whole runs *)
   Definition spec_result (is_lazy : bool) (net0 : reach) (h : list step) : run_result :=
-    match is_lazy, net0 with
-    | true, _ => let '(rs, _, _, n) := spec_steps h ANone net0 0 in mkRun None rs n (Some n)
-    | false, Up => let '(rs, _, _, n) := spec_steps h AAlive Up 1 in mkRun (Some RoOk) rs n (Some n)
-    | false, Down r => mkRun (Some (RoErr (mkErr 1 r))) [] 1 None
-    end.
+    if is_lazy
+    then let '(rs, _, _, n) := spec_steps h ANone net0 0 in mkRun None rs n (Some n)
+    else match net0 with
+         | Up => let '(rs, _, _, n) := spec_steps h AAlive net0 1 in mkRun (Some RoOk) rs n (Some n)
+         | UpGarbage => let '(rs, _, _, n) := spec_steps h ANone net0 1 in mkRun (Some RoOk) rs n (Some n)
+         | Down r => mkRun (Some (RoErr (mkErr 1 r Refused))) [] 1 None
+         | UpDead => mkRun (Some (RoErr (mkErr 1 0 Handshake))) [] 1 None
+         end.
 
   Lemma run_with_spec : forall f is_lazy lat net0 h,
     (lat + 4 <= f)%nat -> run_with' f is_lazy lat net0 h = spec_result is_lazy net0 h.
@@ -427,182 +757,31 @@ Section Contracts.
       destruct (run_steps_spec h f (mkChan (new_reconnect true) None) (mkWorld net0 lat 0) rs a' net' n' G Hf Es)
         as (ch' & E & _ & _ & I).
       fold run_steps'. rewrite E. cbn [ch_rc rc_i2c w_attempts new_reconnect] in I. cbn [w_attempts]. f_equal. f_equal. lia.
-    - rewrite build_eager by exact Hf. cbn [w_net bump w_lat w_attempts].
-      destruct net0 as [|r]; cbn [spec_result]; [|reflexivity].
-      destruct (spec_steps h AAlive Up 1) as [[[rs a'] net'] n'] eqn:Es.
-      assert (G : Good (mkChan (mkRc (Connected Alive) None true false 1) None)) by (constructor; simpl; auto).
-      destruct (run_steps_spec h f _ (mkWorld Up lat (0 + 1)) rs a' net' n' G Hf Es) as (ch' & E & _ & _ & I).
-      fold run_steps'. unfold bump. cbn [w_net w_lat w_attempts]. rewrite E. cbn [ch_rc rc_i2c w_attempts new_reconnect] in I. cbn [w_attempts]. f_equal. f_equal. lia.
+    - rewrite build_eager by exact Hf. cbn [w_net bump w_lat w_attempts spec_result].
+      destruct net0 as [|r| |]; try reflexivity.
+      + destruct (spec_steps h AAlive Up 1) as [[[rs a'] net'] n'] eqn:Es.
+        assert (G : Good (mkChan (mkRc (Connected Alive) None true false 1) None)) by (constructor; simpl; auto).
+        destruct (run_steps_spec h f _ (mkWorld Up lat (0 + 1)) rs a' net' n' G Hf Es) as (ch' & E & _ & _ & I).
+        fold run_steps'. unfold bump. cbn [w_net w_lat w_attempts]. rewrite E. cbn [ch_rc rc_i2c w_attempts new_reconnect] in I. cbn [w_attempts]. f_equal. f_equal. lia.
+      + destruct (spec_steps h ANone UpGarbage 1) as [[[rs a'] net'] n'] eqn:Es.
+        assert (G : Good (mkChan (mkRc (Connected Closed) None true false 1) None)) by (constructor; simpl; auto).
+        destruct (run_steps_spec h f _ (mkWorld UpGarbage lat (0 + 1)) rs a' net' n' G Hf Es) as (ch' & E & _ & _ & I).
+        fold run_steps'. unfold bump. cbn [w_net w_lat w_attempts]. rewrite E. cbn [ch_rc rc_i2c w_attempts new_reconnect] in I. cbn [w_attempts]. f_equal. f_equal. lia.
   Qed.
 End Contracts.
 
-(* ================================================================ the abstraction's properties *)
-Ltac spec_inv Hsp :=
-  simpl in Hsp;
-  match type of Hsp with
-  | context [spec_call ?a ?net ?n] =>
-      let a1 := fresh "a1" in let n1 := fresh "n1" in let o := fresh "o" in let Ec := fresh "Ec" in
-      destruct (spec_call a net n) as [[a1 n1] o] eqn:Ec;
-      match type of Hsp with
-      | context [spec_steps ?h a1 ?net' n1] =>
-          let rs1 := fresh "rs1" in let a2 := fresh "a2" in let net2 := fresh "net2" in
-          let n2 := fresh "n2" in let Er := fresh "Er" in
-          destruct (spec_steps h a1 net' n1) as [[[rs1 a2] net2] n2] eqn:Er;
-          injection Hsp as <- <- <- <-
-      end
-  end.
-
-Lemma spec_call_cases : forall a net n a' n' o,
-  spec_call a net n = (a', n', o) ->
-  (o = Response /\ a' = AAlive /\ ((a = AAlive /\ n' = n) \/ (a = ANone /\ net = Up /\ n' = n + 1))) \/
-  (o = Canceled /\ a = ASevered /\ a' = ANone /\ n' = n) \/
-  (exists r, o = ConnectErr (mkErr n' r) /\ a = ANone /\ a' = ANone /\ net = Down r /\ n' = n + 1).
-Proof.
-  intros a net n a' n' o H. destruct a; simpl in H.
-  - destruct net as [|r]; injection H as <- <- <-.
-    + left. auto 10.
-    + right. right. exists r. auto 10.
-  - injection H as <- <- <-. left. auto 10.
-  - injection H as <- <- <-. right. left. auto.
-Qed.
-
-(* every record: a response, a cancellation, or the failure of the attempt made by this very call *)
-Definition own_record (c : call_rec) : Prop :=
-  rec_outcome c = Response \/ rec_outcome c = Canceled \/
-  exists r, rec_outcome c = ConnectErr (mkErr (rec_after c) r) /\ rec_after c = rec_before c + 1.
-
-Lemma spec_records : forall h a net n rs a' net' n',
-  spec_steps h a net n = (rs, a', net', n') -> Forall own_record rs.
-Proof.
-  induction h as [|s h IH]; intros a net n rs a' net' n' Hsp.
-  - injection Hsp as <- _ _ _. constructor.
-  - destruct s as [[r| |]|b|]; try (simpl in Hsp; eapply IH; eassumption).
-    spec_inv Hsp. constructor; [| eapply IH; eassumption].
-    unfold own_record, rec_outcome, rec_after, rec_before. cbn [fst snd].
-    destruct (spec_call_cases _ _ _ _ _ _ Ec) as [(-> & _)|[(-> & _)|(r & -> & _ & _ & _ & ->)]]; eauto.
-Qed.
-
-Lemma spec_quiescent : forall h a net n rs a' net' n',
-  spec_steps h a net n = (rs, a', net', n') -> quiescent h = true -> a <> ASevered ->
-  Forall (fun c => rec_outcome c <> Canceled) rs /\ a' <> ASevered.
-Proof.
-  induction h as [|s h IH]; intros a net n rs a' net' n' Hsp Hq Ha.
-  - injection Hsp as <- <- _ _. split; [constructor | assumption].
-  - unfold quiescent in Hq. cbn [forallb] in Hq. apply andb_true_iff in Hq as [Hq1 Hq2].
-    destruct s as [[r| |]|b|].
-    + simpl in Hsp. eapply IH; eassumption.
-    + simpl in Hsp. eapply IH; eassumption.
-    + simpl in Hsp. eapply IH; try eassumption. discriminate.
-    + destruct b; [|discriminate]. simpl in Hsp. eapply IH; try eassumption. discriminate.
-    + spec_inv Hsp.
-      destruct (spec_call_cases _ _ _ _ _ _ Ec) as [(-> & -> & _)|[(_ & -> & _)|(r & -> & _ & -> & _)]];
-        try congruence.
-      * destruct (IH _ _ _ _ _ _ _ Er Hq2) as [F A]; [discriminate|]. split; [|exact A].
-        constructor; [unfold rec_outcome; cbn; discriminate | exact F].
-      * destruct (IH _ _ _ _ _ _ _ Er Hq2) as [F A]; [discriminate|]. split; [|exact A].
-        constructor; [unfold rec_outcome; cbn; discriminate | exact F].
-Qed.
-
-Lemma spec_chain : forall h a net n rs a' net' n',
-  spec_steps h a net n = (rs, a', net', n') -> chained n rs n'.
-Proof.
-  induction h as [|s h IH]; intros a net n rs a' net' n' Hsp.
-  - injection Hsp as <- _ _ <-. reflexivity.
-  - destruct s as [[r| |]|b|]; try (simpl in Hsp; eapply IH; eassumption).
-    spec_inv Hsp. cbn [chained]. unfold rec_before, rec_after. cbn [fst snd].
-    split; [reflexivity|]. split; [| eapply IH; eassumption].
-    destruct (spec_call_cases _ _ _ _ _ _ Ec) as [(_ & _ & [(_ & ->)|(_ & _ & ->)])|[(_ & _ & _ & ->)|(r & _ & _ & _ & _ & ->)]]; auto.
-Qed.
-
-Lemma chained_le : forall rs n n', chained n rs n' -> n <= n' /\ n' <= n + N.of_nat (length rs).
-Proof.
-  induction rs as [|c rs IH]; intros n n' H; simpl in H.
-  - subst. simpl. lia.
-  - destruct H as (_ & Hc & H). apply IH in H. cbn [length]. destruct Hc as [E|E]; rewrite E in H; lia.
-Qed.
-
-Lemma spec_sorted : forall h a net n rs a' net' n',
-  spec_steps h a net n = (rs, a', net', n') ->
-  Forall (fun k => n < k) (err_ids rs) /\ StronglySorted N.lt (err_ids rs).
-Proof.
-  induction h as [|s h IH]; intros a net n rs a' net' n' Hsp.
-  - injection Hsp as <- _ _ _. split; constructor.
-  - destruct s as [[r| |]|b|]; try (simpl in Hsp; eapply IH; eassumption).
-    spec_inv Hsp. destruct (IH _ _ _ _ _ _ _ Er) as [F S].
-    assert (Hle : n <= n1).
-    { destruct (spec_call_cases _ _ _ _ _ _ Ec) as [(_ & _ & [(_ & ->)|(_ & _ & ->)])|[(_ & _ & _ & ->)|(r & _ & _ & _ & _ & ->)]]; lia. }
-    assert (F' : Forall (fun k => n < k) (err_ids rs1)).
-    { eapply Forall_impl; [|exact F]. cbv beta. intros; lia. }
-    unfold err_ids. cbn [flat_map]. fold (err_ids rs1). unfold rec_outcome at 1. cbn [fst snd].
-    destruct (spec_call_cases _ _ _ _ _ _ Ec) as [(-> & _)|[(-> & _)|(r & -> & _ & _ & _ & E)]]; cbn [app]; auto.
-    cbn [e_attempt]. split.
-    + constructor; [lia | exact F'].
-    + constructor; [exact S | exact F].
-Qed.
-
-Lemma spec_app : forall h1 h2 a net n,
-  spec_steps (h1 ++ h2) a net n =
-    (let '(rs1, a1, net1, n1) := spec_steps h1 a net n in
-     let '(rs2, a2, net2, n2) := spec_steps h2 a1 net1 n1 in
-     (rs1 ++ rs2, a2, net2, n2)).
-Proof.
-  induction h1 as [|s h1 IH]; intros h2 a net n.
-  - simpl. destruct (spec_steps h2 a net n) as [[[? ?] ?] ?]. reflexivity.
-  - destruct s as [[r| |]|b|]; cbn [app spec_steps]; try apply IH.
-    destruct (spec_call a net n) as [[a1 n1] o]. rewrite IH.
-    destruct (spec_steps h1 a1 net n1) as [[[rs1 a2] net2] n2].
-    destruct (spec_steps h2 a2 net2 n2) as [[[rs2 a3] net3] n3]. reflexivity.
-Qed.
-
-Lemma spec_len_net : forall h a net n rs a' net' n',
-  spec_steps h a net n = (rs, a', net', n') -> length rs = count_calls h /\ net' = net_after net h.
-Proof.
-  induction h as [|s h IH]; intros a net n rs a' net' n' Hsp.
-  - injection Hsp as <- _ <- _. split; reflexivity.
-  - destruct s as [[r| |]|b|]; try (simpl in Hsp; eapply IH; eassumption).
-    spec_inv Hsp. destruct (IH _ _ _ _ _ _ _ Er) as [L Nn]. cbn [length count_calls net_after]. auto.
-Qed.
-
-(* the record of a call issued after [h1] *)
-Lemma spec_nth_call : forall h1 h2 a net n rs a' net' n',
-  spec_steps (h1 ++ Call :: h2) a net n = (rs, a', net', n') ->
-  exists rs1 a1 n1,
-    spec_steps h1 a net n = (rs1, a1, net_after net h1, n1) /\
-    nth_error rs (count_calls h1) =
-      Some (n1, snd (spec_call a1 (net_after net h1) n1), snd (fst (spec_call a1 (net_after net h1) n1))) /\
-    spec_steps h2 (fst (fst (spec_call a1 (net_after net h1) n1))) (net_after net h1)
-               (snd (fst (spec_call a1 (net_after net h1) n1))) =
-      (skipn (S (count_calls h1)) rs, a', net', n').
-Proof.
-  intros h1 h2 a net n rs a' net' n' Hsp. rewrite spec_app in Hsp.
-  destruct (spec_steps h1 a net n) as [[[rs1 a1] net1] n1] eqn:E1.
-  destruct (spec_len_net _ _ _ _ _ _ _ _ E1) as [L ->].
-  cbn [spec_steps] in Hsp.
-  destruct (spec_call a1 (net_after net h1) n1) as [[a2 n2] o] eqn:Ec.
-  destruct (spec_steps h2 a2 (net_after net h1) n2) as [[[rs2 a3] net3] n3] eqn:E2.
-  injection Hsp as <- <- <- <-.
-  exists rs1, a1, n1. rewrite Ec. cbn [fst snd]. split; [reflexivity|]. rewrite <- L. split.
-  - rewrite nth_error_app2 by lia. rewrite Nat.sub_diag. reflexivity.
-  - replace (S (length rs1)) with (length (rs1 ++ [(n1, o, n2)])) by (rewrite app_length; simpl; lia).
-    change (rs1 ++ (n1, o, n2) :: rs2) with (rs1 ++ [(n1, o, n2)] ++ rs2). rewrite app_assoc.
-    rewrite skipn_app, Nat.sub_diag, skipn_all. cbn [app skipn]. exact E2.
-Qed.
-
-Lemma nth_error_skipn0 : forall (A : Type) k (l : list A), nth_error l k = nth_error (skipn k l) 0.
-Proof.
-  induction k as [|k IH]; intros [|c l]; cbn [skipn nth_error]; try reflexivity. apply IH.
-Qed.
-
-(* ================================================================ the theorems *)
-Lemma connect_error_is_unavailable : forall e,
-  outcome_code (ConnectErr e) = Some Code_Unavailable /\
-  code_from_error [LOther; LConnectError; LOther] = Code_Unavailable.
-Proof. intros; split; reflexivity. Qed.
-
+(* ================================================================ error -> code *)
+(* both kinds of connect error carry a ConnectError in their source chain *)
+Lemma connect_err_is_unavailable : forall e, outcome_code (ConnectErr e) = Some Code_Unavailable.
+Proof. intros [k r []]; reflexivity. Qed.
 Lemma canceled_is_cancelled : outcome_code Canceled = Some Code_Cancelled.
 Proof. reflexivity. Qed.
+Lemma connect_error_is_unavailable : forall e,
+  outcome_code (ConnectErr e) = Some Code_Unavailable /\
+  code_from_error (chain_of_err e) = Code_Unavailable.
+Proof. intros [k r []]; split; reflexivity. Qed.
 
-(* runs in which a channel exists start the abstraction without a severed connection *)
+(* ================================================================ whole runs on the abstraction *)
 Lemma spec_result_built : forall is_lazy net0 h,
   built is_lazy net0 ->
   exists a0 eo,
@@ -611,24 +790,30 @@ Lemma spec_result_built : forall is_lazy net0 h,
     spec_result is_lazy net0 h =
       (let '(rs, _, _, n) := spec_steps h a0 net0 (if is_lazy then 0 else 1) in mkRun eo rs n (Some n)).
 Proof.
-  intros is_lazy net0 h [->| ->].
+  intros is_lazy net0 h B. destruct is_lazy.
   - exists ANone, None. repeat split; auto; discriminate.
-  - destruct is_lazy.
-    + exists ANone, None. repeat split; auto; discriminate.
+  - destruct B as [B|[->| ->]]; [discriminate| |].
     + exists AAlive, (Some RoOk). repeat split; auto; discriminate.
+    + exists ANone, (Some RoOk). repeat split; auto; discriminate.
 Qed.
 
 Lemma spec_result_not_built : forall is_lazy net0 h,
-  ~ built is_lazy net0 -> exists r, is_lazy = false /\ net0 = Down r /\
-  spec_result is_lazy net0 h = mkRun (Some (RoErr (mkErr 1 r))) [] 1 None.
+  ~ built is_lazy net0 ->
+  exists e, is_lazy = false /\ e_attempt e = 1 /\
+    ((net0 = Down (e_reason e) /\ e_kind e = Refused) \/ (net0 = UpDead /\ e_kind e = Handshake)) /\
+    spec_result is_lazy net0 h = mkRun (Some (RoErr e)) [] 1 None.
 Proof.
   intros is_lazy net0 h Hn. destruct is_lazy; [exfalso; apply Hn; left; reflexivity|].
-  destruct net0 as [|r]; [exfalso; apply Hn; right; reflexivity|]. exists r. auto.
+  destruct net0 as [|r| |].
+  - exfalso; apply Hn; right; left; reflexivity.
+  - exists (mkErr 1 r Refused). cbn. auto 10.
+  - exists (mkErr 1 0 Handshake). cbn. auto 10.
+  - exfalso; apply Hn; right; right; reflexivity.
 Qed.
 
 Lemma built_dec : forall is_lazy net0, built is_lazy net0 \/ ~ built is_lazy net0.
 Proof.
-  intros [|] [|r]; unfold built; auto. right. intros [H|H]; discriminate.
+  intros [|] [|r| |]; unfold built; auto; right; intros [H|[H|H]]; discriminate.
 Qed.
 
 Section Theorems.
@@ -644,8 +829,7 @@ Section Theorems.
   Lemma R_spec : forall h, R h = spec_result is_lazy net0 h.
   Proof. intro h. unfold R. apply run_with_spec; assumption. Qed.
 
-  (* a generic way to use the abstraction: a property of all records of the abstraction holds of
-     the calls of every run *)
+  (* a property of all records of the abstraction holds of the calls of every run *)
   Lemma calls_forall : forall (P : call_rec -> Prop) h,
     (forall a net n rs a' net' n', spec_steps h a net n = (rs, a', net', n') -> Forall P rs) ->
     Forall P (r_calls (R h)).
@@ -654,11 +838,11 @@ Section Theorems.
     - destruct (spec_result_built is_lazy net0 h B) as (a0 & eo & _ & _ & _ & _ & ->).
       destruct (spec_steps h a0 net0 (if is_lazy then 0 else 1)) as [[[rs a'] net'] n'] eqn:E.
       cbn [r_calls]. eapply HP; eassumption.
-    - destruct (spec_result_not_built is_lazy net0 h B) as (r & _ & _ & ->). constructor.
+    - destruct (spec_result_not_built is_lazy net0 h B) as (e & _ & _ & _ & ->). constructor.
   Qed.
 
   Lemma own_records : forall h, Forall own_record (r_calls (R h)).
-  Proof. intro h. apply calls_forall. intros; eapply spec_records; eassumption. Qed.
+  Proof. intro h. apply calls_forall. unfold spec_steps. intros; eapply m_records; eassumption. Qed.
 
   Lemma eager_result_cases : forall h,
     r_eager (R h) = None \/ r_eager (R h) = Some RoOk \/ exists e, r_eager (R h) = Some (RoErr e).
@@ -666,7 +850,7 @@ Section Theorems.
     intro h. rewrite R_spec. destruct (built_dec is_lazy net0) as [B|B].
     - destruct (spec_result_built is_lazy net0 h B) as (a0 & eo & _ & [->| ->] & _ & _ & ->);
         destruct (spec_steps h a0 net0 _) as [[[rs a'] net'] n']; cbn; auto.
-    - destruct (spec_result_not_built is_lazy net0 h B) as (r & _ & _ & ->). cbn. eauto.
+    - destruct (spec_result_not_built is_lazy net0 h B) as (e & _ & _ & _ & ->). cbn. eauto.
   Qed.
 
   (* ---- call_never_panics *)
@@ -675,21 +859,22 @@ Section Theorems.
   Proof.
     intro h. split.
     - destruct (eager_result_cases h) as [E|[E|[e E]]]; rewrite E; discriminate.
-    - eapply Forall_impl; [|apply own_records]. intros c [E|[E|(r & E & _)]]; rewrite E; discriminate.
+    - eapply Forall_impl; [|apply own_records]. intros c [E|[E|(e & E & _)]]; rewrite E; discriminate.
   Qed.
 
   (* ---- call_definite *)
   Theorem call_definite : forall h,
     (* building the channel neither hangs nor panics *)
     r_eager (R h) <> Some RoHang /\ r_eager (R h) <> Some RoPanic /\
-    (* every call issued is answered *)
+    (* every call issued is answered, batches included *)
     (built is_lazy net0 -> length (r_calls (R h)) = count_calls h) /\
-    (* never out of fuel (stuck), never a panic, never the replayed error of a failed worker *)
+    (* never out of fuel (stuck), never a panic, never a failed Buffer worker *)
     Forall (fun c => rec_outcome c <> OutOfFuel /\ rec_outcome c <> Panic /\
                      rec_outcome c <> WorkerClosed /\
                      forall e, rec_outcome c <> ServiceFailed e) (r_calls (R h)) /\
-    (* at quiescent points: a response, or a connect error that is UNAVAILABLE *)
-    (quiescent h = true ->
+    (* on the property's alphabet, at quiescent points: a response, or a connect error (refused,
+       or failed handshake), which is UNAVAILABLE *)
+    (quiescent h = true -> plain h = true -> plain_net net0 = true ->
      Forall (fun c => rec_outcome c = Response \/
                       exists e, rec_outcome c = ConnectErr e /\
                                 outcome_code (rec_outcome c) = Some Code_Unavailable) (r_calls (R h))).
@@ -699,32 +884,33 @@ Section Theorems.
     - destruct (eager_result_cases h) as [E|[E|[e E]]]; rewrite E; discriminate.
     - intro B. rewrite R_spec. destruct (spec_result_built is_lazy net0 h B) as (a0 & eo & _ & _ & _ & _ & ->).
       destruct (spec_steps h a0 net0 _) as [[[rs a'] net'] n'] eqn:E. cbn [r_calls].
-      apply (spec_len_net _ _ _ _ _ _ _ _ E).
+      unfold spec_steps in E. destruct (m_len_net _ _ _ _ _ _ _ _ E) as [L _].
+      rewrite flatten_calls in L. exact L.
     - eapply Forall_impl; [|apply own_records].
-      intros c [E|[E|(r & E & _)]]; rewrite E; repeat split; try discriminate; intros; discriminate.
-    - intro Hq. rewrite R_spec. destruct (built_dec is_lazy net0) as [B|B].
+      intros c [E|[E|(e & E & _)]]; rewrite E; repeat split; try discriminate; intros; discriminate.
+    - intros Hq Hp Hn. rewrite R_spec. destruct (built_dec is_lazy net0) as [B|B].
       + destruct (spec_result_built is_lazy net0 h B) as (a0 & eo & Ha & _ & _ & _ & ->).
         destruct (spec_steps h a0 net0 _) as [[[rs a'] net'] n'] eqn:E. cbn [r_calls].
-        destruct (spec_quiescent _ _ _ _ _ _ _ _ E Hq Ha) as [F _].
-        pose proof (spec_records _ _ _ _ _ _ _ _ E) as O.
-        rewrite Forall_forall in *. intros c Hc.
-        destruct (O c Hc) as [Er|[Er|(r & Er & _)]].
-        * left; exact Er.
-        * exfalso. exact (F c Hc Er).
-        * right. eexists. split; [exact Er|]. rewrite Er. reflexivity.
-      + destruct (spec_result_not_built is_lazy net0 h B) as (r & _ & _ & ->). constructor.
+        unfold spec_steps in E.
+        pose proof (m_plain _ _ _ _ _ _ _ _ E (plain_flatten h Hq Hp) Hn Ha) as F.
+        eapply Forall_impl; [|exact F]. intros c [Er|(e & Er)]; [left; exact Er|].
+        right. exists e. split; [exact Er|]. rewrite Er. apply connect_err_is_unavailable.
+      + destruct (spec_result_not_built is_lazy net0 h B) as (e & _ & _ & _ & ->). constructor.
   Qed.
 
-  (* off the quiescent points the only additional outcome is hyper's cancellation (CANCELLED) *)
-  Theorem call_definite_racy : forall h,
+  (* every outcome of every history, with its gRPC code: a response; a connect error - refused by
+     the connector or failed HTTP/2 handshake - (UNAVAILABLE); a request cancelled by hyper because
+     its established connection died under it (CANCELLED; never at a quiescent point of the
+     property's alphabet, see call_definite) *)
+  Theorem call_outcome_classes : forall h,
     Forall (fun c => rec_outcome c = Response \/
                      (rec_outcome c = Canceled /\ outcome_code (rec_outcome c) = Some Code_Cancelled) \/
-                     exists e, rec_outcome c = ConnectErr e /\
-                               outcome_code (rec_outcome c) = Some Code_Unavailable) (r_calls (R h)).
+                     (exists e, rec_outcome c = ConnectErr e /\
+                                outcome_code (rec_outcome c) = Some Code_Unavailable)) (r_calls (R h)).
   Proof.
     intro h. eapply Forall_impl; [|apply own_records].
-    intros c [E|[E|(r & E & _)]]; rewrite E; auto.
-    right. right. eexists. split; reflexivity.
+    intros c [E|[E|(e & E & _)]]; rewrite E; auto.
+    right. right. exists e. auto using connect_err_is_unavailable.
   Qed.
 
   (* ---- error_reported_once *)
@@ -735,7 +921,7 @@ Section Theorems.
     (* no attempt's failure reaches two calls: reported attempt numbers strictly increase *)
     StronglySorted N.lt (err_ids (r_calls (R h))) /\
     NoDup (err_ids (r_calls (R h))) /\
-    (* and the worker never fails, so nothing is replayed *)
+    (* and the worker never fails, so no later call is refused on account of an old failure *)
     Forall (fun c => rec_outcome c <> WorkerClosed /\ forall e, rec_outcome c <> ServiceFailed e)
            (r_calls (R h)).
   Proof.
@@ -744,16 +930,16 @@ Section Theorems.
     { rewrite R_spec. destruct (built_dec is_lazy net0) as [B|B].
       - destruct (spec_result_built is_lazy net0 h B) as (a0 & eo & _ & _ & _ & _ & ->).
         destruct (spec_steps h a0 net0 _) as [[[rs a'] net'] n'] eqn:E. cbn [r_calls].
-        apply (spec_sorted _ _ _ _ _ _ _ _ E).
-      - destruct (spec_result_not_built is_lazy net0 h B) as (r & _ & _ & ->). constructor. }
+        unfold spec_steps in E. apply (m_sorted _ _ _ _ _ _ _ _ E).
+      - destruct (spec_result_not_built is_lazy net0 h B) as (e & _ & _ & _ & ->). constructor. }
     split; [|split; [exact S|split]].
     - eapply Forall_impl; [|apply own_records].
-      intros c [E|[E|(r & E & A)]] e He; rewrite E in He; try discriminate.
+      intros c [E|[E|(e0 & E & A1 & A2)]] e He; rewrite E in He; try discriminate.
       injection He as <-. auto.
     - clear -S. induction S as [|k l S IH F]; constructor; auto.
       intro Hin. rewrite Forall_forall in F. specialize (F k Hin). lia.
     - eapply Forall_impl; [|apply own_records].
-      intros c [E|[E|(r & E & _)]]; rewrite E; split; try discriminate; intros; discriminate.
+      intros c [E|[E|(e & E & _)]]; rewrite E; split; try discriminate; intros; discriminate.
   Qed.
 
   (* ---- attempts_counted *)
@@ -765,11 +951,12 @@ Section Theorems.
     intro h. rewrite R_spec. destruct (built_dec is_lazy net0) as [B|B].
     - destruct (spec_result_built is_lazy net0 h B) as (a0 & eo & _ & _ & _ & _ & ->).
       destruct (spec_steps h a0 net0 _) as [[[rs a'] net'] n'] eqn:E. cbn [r_calls r_i2c r_attempts].
-      pose proof (spec_chain _ _ _ _ _ _ _ _ E) as C.
+      unfold spec_steps in E.
+      pose proof (m_chain _ _ _ _ _ _ _ _ E) as C.
       split; [auto|]. split; [auto|].
-      destruct (chained_le _ _ _ C) as [_ L]. destruct (spec_len_net _ _ _ _ _ _ _ _ E) as [Ln _].
-      rewrite Ln in L. exact L.
-    - destruct (spec_result_not_built is_lazy net0 h B) as (r & -> & _ & ->).
+      destruct (chained_le _ _ _ C) as [_ L]. destruct (m_len_net _ _ _ _ _ _ _ _ E) as [Ln _].
+      rewrite flatten_calls in Ln. rewrite Ln in L. exact L.
+    - destruct (spec_result_not_built is_lazy net0 h B) as (e & -> & _ & _ & ->).
       cbn [r_attempts r_i2c r_calls].
       split; [intro; contradiction|]. split; [intro; contradiction|]. lia.
   Qed.
@@ -784,15 +971,18 @@ Section Theorems.
     destruct (spec_steps (h1 ++ Call :: h2) a0 net0 _) as [[[rs a'] net'] n'] eqn:E. cbn [r_calls].
     destruct (spec_nth_call _ _ _ _ _ _ _ _ _ E) as (rs1 & a1 & n1 & E1 & Nth & _).
     rewrite Nth, Hn.
-    destruct (spec_quiescent _ _ _ _ _ _ _ _ E1 Hq Ha) as [_ Ha1].
+    pose proof (steps_no_severed _ _ _ _ _ _ _ _ E1 Hq Ha) as Ha1.
     destruct a1; try congruence; cbn; eauto.
   Qed.
 
-  (* an UNAVAILABLE connect error is only ever reported while the endpoint refuses, and it is the
-     current refusal *)
+  (* what a call gets is determined by the environment at that moment: an error of the connector
+     only while it refuses (the refusal in force), a handshake error only while the peer closes
+     at once *)
   Theorem unavailable_only_while_unreachable : forall h1 h2 c e,
     nth_error (r_calls (R (h1 ++ Call :: h2))) (count_calls h1) = Some c ->
-    rec_outcome c = ConnectErr e -> net_after net0 h1 = Down (e_reason e).
+    rec_outcome c = ConnectErr e ->
+    (net_after net0 h1 = Down (e_reason e) /\ e_kind e = Refused) \/
+    (net_after net0 h1 = UpDead /\ e_kind e = Handshake).
   Proof.
     intros h1 h2 c e Hnth Hc. rewrite R_spec in Hnth. destruct (built_dec is_lazy net0) as [B|B].
     - destruct (spec_result_built is_lazy net0 (h1 ++ Call :: h2) B) as (a0 & eo & Ha & _ & _ & _ & Es).
@@ -801,9 +991,35 @@ Section Theorems.
       destruct (spec_nth_call _ _ _ _ _ _ _ _ _ E) as (rs1 & a1 & n1 & E1 & Nth & _).
       rewrite Nth in Hnth. injection Hnth as <-. unfold rec_outcome in Hc. cbn [fst snd] in Hc.
       destruct (spec_call a1 (net_after net0 h1) n1) as [[a2 n2] o] eqn:Ec. cbn [snd] in Hc. subst o.
-      destruct (spec_call_cases _ _ _ _ _ _ Ec) as [(X & _)|[(X & _)|(r & X & _ & _ & -> & _)]]; try discriminate.
-      injection X as ->. reflexivity.
-    - destruct (spec_result_not_built is_lazy net0 (h1 ++ Call :: h2) B) as (r & _ & _ & Es).
+      destruct (spec_call_cases _ _ _ _ _ _ Ec) as [(X & _)|[(X & _)|(e' & X & _ & _ & _ & _ & D)]]; try discriminate.
+      injection X as ->. exact D.
+    - destruct (spec_result_not_built is_lazy net0 (h1 ++ Call :: h2) B) as (e' & _ & _ & _ & Es).
+      rewrite Es in Hnth. cbn in Hnth. destruct (count_calls h1); discriminate.
+  Qed.
+
+  (* the two further connector outcomes, exactly: while the peer closes at once (handshake fails)
+     a call that finds no live connection gets the handshake's connect error, UNAVAILABLE; while
+     the peer is not HTTP/2 the connection is established and dies under the request: CANCELLED *)
+  Theorem handshake_failure_outcome : forall h1 h2 c,
+    nth_error (r_calls (R (h1 ++ Call :: h2))) (count_calls h1) = Some c -> quiescent h1 = true ->
+    (net_after net0 h1 = UpDead ->
+     rec_outcome c = Response \/
+     exists e, rec_outcome c = ConnectErr e /\ e_kind e = Handshake /\
+               outcome_code (rec_outcome c) = Some Code_Unavailable) /\
+    (net_after net0 h1 = UpGarbage ->
+     rec_outcome c = Response \/
+     (rec_outcome c = Canceled /\ outcome_code (rec_outcome c) = Some Code_Cancelled)).
+  Proof.
+    intros h1 h2 c Hnth Hq. rewrite R_spec in Hnth. destruct (built_dec is_lazy net0) as [B|B].
+    - destruct (spec_result_built is_lazy net0 (h1 ++ Call :: h2) B) as (a0 & eo & Ha & _ & _ & _ & Es).
+      rewrite Es in Hnth.
+      destruct (spec_steps (h1 ++ Call :: h2) a0 net0 _) as [[[rs a'] net'] n'] eqn:E. cbn [r_calls] in Hnth.
+      destruct (spec_nth_call _ _ _ _ _ _ _ _ _ E) as (rs1 & a1 & n1 & E1 & Nth & _).
+      pose proof (steps_no_severed _ _ _ _ _ _ _ _ E1 Hq Ha) as Ha1.
+      rewrite Nth in Hnth. injection Hnth as <-. unfold rec_outcome. cbn [fst snd].
+      split; intro Hn; rewrite Hn; destruct a1; try congruence; cbn; auto.
+      right. eexists. split; [reflexivity|]. split; reflexivity.
+    - destruct (spec_result_not_built is_lazy net0 (h1 ++ Call :: h2) B) as (e' & _ & _ & _ & Es).
       rewrite Es in Hnth. cbn in Hnth. destruct (count_calls h1); discriminate.
   Qed.
 
@@ -817,21 +1033,17 @@ Section Theorems.
     destruct (spec_steps (h1 ++ Call :: Call :: h2) a0 net0 _) as [[[rs a'] net'] n'] eqn:E. cbn [r_calls].
     destruct (spec_nth_call _ _ _ _ _ _ _ _ _ E) as (rs1 & a1 & n1 & E1 & Nth & Rest).
     rewrite Hn in *.
-    assert (Hsk : nth_error rs (S (count_calls h1)) = nth_error (skipn (S (count_calls h1)) rs) 0).
-    { apply nth_error_skipn0. }
-    rewrite Hsk.
+    rewrite (nth_error_skipn0 _ (S (count_calls h1)) rs).
     destruct (spec_call a1 Up n1) as [[a2 n2] o] eqn:Ec. cbn [fst snd] in Rest.
-    cbn [spec_steps] in Rest.
-    destruct (spec_call a2 Up n2) as [[a3 n3] o2] eqn:Ec2.
-    destruct (spec_steps h2 a3 Up n3) as [[[rs3 a4] net4] n4].
+    unfold spec_steps in Rest. cbn [flatten repeat app spec_micro] in Rest.
+    destruct (spec_call (abs_settle a2) Up n2) as [[a3 n3] o2] eqn:Ec2.
+    destruct (spec_micro (flatten h2) (abs_settle a3) Up n3) as [[[rs3 a4] net4] n4].
     assert (Hr : skipn (S (count_calls h1)) rs = (n2, o2, n3) :: rs3) by congruence.
     rewrite Hr. cbn [nth_error].
-    assert (a2 <> ASevered).
-    { destruct (spec_call_cases _ _ _ _ _ _ Ec) as [(_ & -> & _)|[(_ & _ & -> & _)|(r & _ & _ & -> & _)]]; discriminate. }
-    destruct a2; try congruence; cbn in Ec2; injection Ec2 as <- <- <-; eauto.
+    destruct a2; cbn in Ec2; injection Ec2 as <- <- <-; eauto.
   Qed.
 
-  (* ---- eager_initial_failure_immediate *)
+  (* ---- eager / lazy construction *)
   Theorem lazy_reports_nothing_at_construction : forall h, is_lazy = true -> r_eager (R h) = None.
   Proof.
     intros h Hl. rewrite R_spec.
@@ -844,7 +1056,14 @@ Theorem eager_initial_failure_immediate :
   forall cpr sreq mkpr, stack_contract cpr sreq mkpr ->
   forall fuel lat reason h, enough_fuel lat fuel ->
     run_with cpr sreq mkpr fuel false lat (Down reason) h =
-      mkRun (Some (RoErr (mkErr 1 reason))) [] 1 None.
+      mkRun (Some (RoErr (mkErr 1 reason Refused))) [] 1 None.
+Proof. intros. rewrite run_with_spec by assumption. reflexivity. Qed.
+
+Theorem eager_handshake_failure_immediate :
+  forall cpr sreq mkpr, stack_contract cpr sreq mkpr ->
+  forall fuel lat h, enough_fuel lat fuel ->
+    run_with cpr sreq mkpr fuel false lat UpDead h =
+      mkRun (Some (RoErr (mkErr 1 0 Handshake))) [] 1 None.
 Proof. intros. rewrite run_with_spec by assumption. reflexivity. Qed.
 
 Theorem eager_initial_success :
